@@ -75,7 +75,7 @@ func c05DocCond(r *rand.Rand, values val.Item) *refmodel.Cond {
 		return refmodel.Operand{Kind: "path", Path: p}
 	}
 	eq := func() string { return mon.Pick(r, []string{"=", "<>"}) }
-	switch r.Intn(12) {
+	switch r.Intn(18) {
 	case 0:
 		return &refmodel.Cond{Op: "cmp", Cmp: eq(), Args: []refmodel.Operand{pt("flags", r.Intn(3)), nv(val.Bool(r.Intn(2) == 0))}}
 	case 1:
@@ -98,6 +98,20 @@ func c05DocCond(r *rand.Rand, values val.Item) *refmodel.Cond {
 		return &refmodel.Cond{Op: "cmp", Cmp: eq(), Args: []refmodel.Operand{pt("cfg", "bin"), nv(val.Bin(mon.Pick(r, []string{"\x01", "\x02"})))}}
 	case 10:
 		return &refmodel.Cond{Op: "cmp", Cmp: eq(), Args: []refmodel.Operand{pt("flags", 0), pt("cfg", "on")}}
+	// guards that compare the request's values with a WINDOW the item itself carries (attributes lo and hi), or the
+	// item with itself: attributes in every operand position of BETWEEN and IN, plain and under NOT
+	case 11:
+		return &refmodel.Cond{Op: "between", Args: []refmodel.Operand{nv(val.Num(fmt.Sprint(r.Intn(8)))), pt("lo"), pt("hi")}}
+	case 12:
+		return &refmodel.Cond{Op: "not", Kids: []*refmodel.Cond{{Op: "between", Args: []refmodel.Operand{nv(val.Num(fmt.Sprint(r.Intn(8)))), pt("lo"), pt("hi")}}}}
+	case 13:
+		return &refmodel.Cond{Op: "between", Args: []refmodel.Operand{pt("v"), pt("lo"), nv(val.Num(fmt.Sprint(3 + r.Intn(5))))}}
+	case 14:
+		return &refmodel.Cond{Op: "between", Args: []refmodel.Operand{pt("cfg", "lvl"), nv(val.Num("0")), pt("hi")}}
+	case 15:
+		return &refmodel.Cond{Op: "in", Args: []refmodel.Operand{nv(val.Num(fmt.Sprint(r.Intn(8)))), pt("lo"), pt("hi"), pt("v")}}
+	case 16:
+		return &refmodel.Cond{Op: "cmp", Cmp: mon.Pick(r, []string{"<", "<=", "=", ">"}), Args: []refmodel.Operand{pt("lo"), pt("v")}}
 	default:
 		return &refmodel.Cond{Op: "cmp", Cmp: eq(), Args: []refmodel.Operand{pt("cfg", "tags"), nv(val.SS("t1", "t2"))}}
 	}
@@ -105,6 +119,13 @@ func c05DocCond(r *rand.Rand, values val.Item) *refmodel.Cond {
 
 // c05Doc adds the document attributes the guards of c05DocCond look at.
 func c05Doc(r *rand.Rand, it val.Item) {
+	if r.Intn(4) != 0 {
+		lo := r.Intn(4)
+		it["lo"] = val.Num(fmt.Sprint(lo))
+		if r.Intn(5) != 0 {
+			it["hi"] = val.Num(fmt.Sprint(lo + r.Intn(5)))
+		}
+	}
 	if r.Intn(3) != 0 {
 		fl := []val.V{val.Bool(r.Intn(2) == 0), val.Bool(r.Intn(2) == 0)}
 		if r.Intn(2) == 0 {
